@@ -1074,19 +1074,16 @@ class Process:
             raise ValueError(msg)
         num_cpus = cpu_count() or 1
 
-        def timer():
-            return _timer() * num_cpus
-
         if blocking:
-            st1 = timer()
+            st1 = _timer()
             pt1 = self._proc.cpu_times()
             time.sleep(interval)
-            st2 = timer()
+            st2 = _timer()
             pt2 = self._proc.cpu_times()
         else:
             st1 = self._last_sys_cpu_times
             pt1 = self._last_proc_cpu_times
-            st2 = timer()
+            st2 = _timer()
             pt2 = self._proc.cpu_times()
             if st1 is None or pt1 is None:
                 self._last_sys_cpu_times = st2
@@ -1094,7 +1091,12 @@ class Process:
                 return 0.0
 
         delta_proc = (pt2.user - pt1.user) + (pt2.system - pt1.system)
-        delta_time = st2 - st1
+        # Wall time elapsed, scaled by the number of CPUs as it is *now*.
+        # The raw timestamp is what is remembered between calls: scaling
+        # each timestamp by the CPU count of its own call would turn a
+        # change in the number of online CPUs into a huge (or negative)
+        # "elapsed time".
+        delta_time = (st2 - st1) * num_cpus
         # reset values for next call in case of interval == None
         self._last_sys_cpu_times = st2
         self._last_proc_cpu_times = pt2
